@@ -239,6 +239,7 @@ class Hub:
         self.n_instants = 0
         self.n_deliveries = 0
         self.hops_at: dict[int, set] = {}  # ns -> hop counts of offers delivered to a front
+        self.reoffer_fronts: set = set()  # entities that legitimately deliver an id to themselves again (PooledCycleResource)
 
     def bind(self, entity, mon, role):
         self.dispatch.setdefault(id(entity), []).append((mon, role))
@@ -309,6 +310,8 @@ class QRMon:
         self.weighted = spec.get("model") == "weighted"
         self.varying = spec.get("model") == "dynamic" or self.kind == "shifted"
         self.hw = None
+        self.overcommitted: set = set()
+        self.over_reported = False
         self.rsink = None
         self.sched = None
         self.driver = None
@@ -396,6 +399,19 @@ class QRMon:
         else:
             raise KeyError(k)
         holder["front"] = self.front
+        if self.queue.policy is not self.rp:
+            # the component threw the configured policy away (e.g. `policy or FIFOQueue()` on an empty,
+            # hence falsy, policy object): order and capacity of the configured policy are not honoured
+            got = type(self.queue.policy).__name__
+            self.hub.add(
+                "order",
+                self.cls,
+                "configured-policy-discarded-at-construction",
+                f"{self.cls}(policy=<{self.audit.comp}>) queues with a fresh {got} instead of the policy it was given",
+                {"configured": s["policy"], "installed": got},
+            )
+            self.hub.res.count("configured_policy_discarded")
+            self.queue.policy = self.rp  # keep monitoring with the policy the case asked for
 
     def _harness_worker(self, w: _InFlight, hascap):
         self.hw = w
@@ -448,6 +464,13 @@ class QRMon:
             self.state[iid] = "WAIT" if extra else "REJ"
             self.n[self.state[iid]] += 1
         elif what == "pop" and iid is not None:
+            # over-commit: the poll behind this dequeue was decided on a stale has_capacity() (an earlier
+            # dequeued item had not reached the worker yet); by now items in service + items in
+            # hand-off + this one exceed the limit
+            act = self.f_active() if self.f_active else self._in_service()
+            if act + self.n["POPPED"] + 1 > self.f_limit():
+                self.overcommitted.add(iid)
+                self.hub.res.count("overcommitted_dequeues")
             self._set(iid, "POPPED", ("WAIT",), t, "popped")
             self.pop_order.append(iid)
             self.limit_at_last_pop = self.f_limit()
@@ -485,6 +508,8 @@ class QRMon:
             if cont or iid is None:
                 return
             if iid in self.state:
+                if self.state[iid] == "DONE" and id(ev.target) in self.hub.reoffer_fronts:
+                    return  # the downstream pool re-offering a queued item to itself, not a second completion
                 self._set(iid, "DONE", ("FIN", "START"), t, "completed")
         elif role == "reneged":
             if iid is not None and self.state.get(iid) != "RENEGED":
@@ -511,7 +536,11 @@ class QRMon:
         elif act is None and ins > lim:
             over = ins
         if over is not None:
-            shape = "same-instant-starts" if self.starts_this_instant > 1 else "start-while-full"
+            if iid in self.overcommitted:
+                shape = "dequeue-beyond-free-capacity-after-stale-poll"
+            else:
+                shape = "same-instant-starts" if self.starts_this_instant > 1 else "start-while-full"
+            self.over_reported = True
             self.hub.add("over-admission", self.cls, shape, f"in service {over} > limit {lim} after id {iid} started at t={t}ns", {"t_ns": t})
         if self.sched is not None:
             t_s = t / 1e9
@@ -533,7 +562,8 @@ class QRMon:
         if c[7] == 0:
             self.limit_seen_zero = True
         act, lim = c[3], c[7]
-        if act is not None and p[3] is not None and act > p[3] and act > lim:
+        if act is not None and p[3] is not None and act > p[3] and act > lim and not self.over_reported:
+            self.over_reported = True
             self.hub.add("over-admission", self.cls, "active-above-limit-after-delivery", f"active {act} > limit {lim} at t={t}ns", {"t_ns": t})
 
     # ---- end of instant
@@ -573,7 +603,7 @@ class QRMon:
             hub.add("ledger", self.cls, "rejected-after-dequeue-counter", f"ledger={n['REJ2']} component={rej2}", w)
         if self.kind == "reneging" and reneged != n["RENEGED"]:
             hub.add("ledger", self.cls, "reneged-counter", f"ledger={n['RENEGED']} component={reneged}", w)
-        if not self.varying and ins > lim:
+        if not self.varying and ins > lim and not self.over_reported:
             hub.add("over-admission", self.cls, "in-service-above-limit-at-end-of-instant", f"{ins} > {lim}", w)
         # work conservation
         if depth > 0:
@@ -650,10 +680,12 @@ class _CounterMon:
         self.offers += 1
         self.hub.hops_at.setdefault(t, set()).add(ev.context["metadata"].get("hops", 0))
 
-    def _done(self, iid, t, fifo=True):
+    def _done(self, iid, t, fifo=True, ev=None):
         old = self.state.get(iid)
         if old is None:
             return
+        if old == "DONE" and ev is not None and id(ev.target) in self.hub.reoffer_fronts:
+            return  # the downstream pool re-offering a queued item to itself, not a second completion
         if old == "DONE":
             self.hub.add("completed-twice", self.cls, "completed-from-DONE", f"id {iid} reached downstream twice (t={t}ns)")
             return
@@ -690,6 +722,7 @@ class PooledMon(_CounterMon):
         self.requeued: set = set()
         self.max_wait = 0
         self._bind()
+        hub.reoffer_fronts.add(id(self.comp))
 
     def _counters(self):
         c = self.comp
@@ -701,7 +734,7 @@ class PooledMon(_CounterMon):
             return
         if role == "down":
             if not cont:
-                self._done(iid, t, fifo=False)
+                self._done(iid, t, fifo=False, ev=ev)
             return
         c, p = self._counters(), self.prev
         hub = self.hub
@@ -722,29 +755,31 @@ class PooledMon(_CounterMon):
                 self.qview.remove(iid)
         elif old != "REOFFER":
             hub.add("ledger", self.cls, f"offered-again-from-{old}", f"id {iid} delivered again at t={t}ns")
-        waiting = list(self.qview) + [x for x, s in st.items() if s == "REOFFER" and x != iid]
         if c[0] > p[0]:
             st[iid] = "START"
             hub.res.count("starts_checked")
             if c[0] > self.comp.pool_size or c[4] < 0:
                 hub.add("over-admission", self.cls, "start-while-full", f"active={c[0]} pool={self.comp.pool_size} available={c[4]}")
-            if old is None and waiting:
-                reoffer = any(st.get(x) == "REOFFER" for x in waiting)
+            if old is None and self.qview:
+                # (a head that is being re-offered at this instant is judged when it lands: started = fine)
+                stolen = any(v == "REOFFER" for v in st.values())
                 hub.add(
                     "order",
                     self.cls,
-                    "arrival-served-ahead-of-waiting-items" + ("-while-head-is-being-reoffered" if reoffer else ""),
-                    f"id {iid} arrived at t={t}ns and started at once while ids {waiting[:4]} were waiting",
+                    "queue-head-overtaken-by-same-instant-arrival-during-reoffer" if stolen else "arrival-served-ahead-of-queued-items",
+                    f"id {iid} arrived at t={t}ns and started at once while ids {self.qview[:4]} were queued"
+                    + (" (the freed unit was meant for the queue head, which is in flight back to the pool)" if stolen else ""),
                     {"t_ns": t},
                 )
             elif old == "REOFFER":
                 pos = self.first_pos.get(iid, -1)
-                late = [x for x in waiting if self.first_pos.get(x, 1 << 60) < pos]
-                if late:
+                late = [x for x in self.qview if self.first_pos.get(x, 1 << 60) < pos]
+                # an item that was sent to the back by the overtaking above is already reported
+                if late and not any(x in self.requeued for x in late):
                     hub.add(
                         "order",
                         self.cls,
-                        "queued-item-starts-before-earlier-queued-item" + ("-after-requeue" if any(x in self.requeued for x in late) else ""),
+                        "queued-item-starts-before-earlier-queued-item",
                         f"id {iid} started at t={t}ns while earlier queued ids {late[:4]} still wait",
                         {"t_ns": t},
                     )
@@ -754,14 +789,27 @@ class PooledMon(_CounterMon):
             if old == "REOFFER":
                 self.requeued.add(iid)
                 hub.res.count("pooled_requeues")
+                self._overtaken(iid, t, "went back to the end of the wait queue")
             else:
                 self.first_pos[iid] = len(self.first_pos)
         elif c[2] > p[2]:
             st[iid] = "REJ"
             if old == "REOFFER":
                 hub.res.count("pooled_reoffer_rejected")
+                self._overtaken(iid, t, "was rejected (wait queue full)")
         else:
             hub.add("ledger", self.cls, "delivery-changed-no-counter", f"id {iid} at t={t}ns: counters {p}->{c}")
+
+    def _overtaken(self, iid, t, what):
+        # the head of the FIFO wait queue was taken out for the freed unit, but an arrival delivered
+        # at the same instant got the unit first: the head is no longer served in arrival order
+        self.hub.add(
+            "order",
+            self.cls,
+            "queue-head-overtaken-by-same-instant-arrival-during-reoffer",
+            f"id {iid} was first in the wait queue, was taken out for a freed unit at t={t}ns, lost the unit to a later arrival and {what}",
+            {"t_ns": t},
+        )
 
     def end_of_instant(self, t, new_ns, final):
         hub = self.hub
@@ -831,7 +879,7 @@ class BatchMon(_CounterMon):
         iid = tag_of(ev)
         if role == "down":
             if not cont and iid is not None:
-                self._done(iid, t)
+                self._done(iid, t, ev=ev)
             return
         c, p = self._counters(), self.prev
         hub = self.hub
@@ -928,7 +976,7 @@ class ConveyorMon(_CounterMon):
             return
         if role == "down":
             if not cont:
-                self._done(iid, t)
+                self._done(iid, t, ev=ev)
             return
         c, p = self._counters(), self.prev
         hub = self.hub
@@ -1016,7 +1064,7 @@ class GateMon(_CounterMon):
         if iid is None or cont:
             return
         if role == "down":
-            self._done(iid, t)
+            self._done(iid, t, ev=ev)
             return
         c, p = self._counters(), self.prev
         hub = self.hub
